@@ -288,13 +288,34 @@ def main():
             if not ok:
                 ncost_bad += 1; ndiff += 1
                 if first_diff is None: first_diff = ([], "cost of the solution %d reported by '%s' (solve %d): PathGeometric::cost = %s, length = %s; CostModel (%s) = %s, length %s" % (si_, j, k, tb[0], tb[1], objn, bits_(want), bits_(mlen)))
+    # ---- geometric::RRTstar on scripted runs (lib/rrtstar_scripts.py; the same runs the C01 check compares with RrtStarModel bit for bit):
+    #      every motion's cost = its parent's cost + its incCost, incCost = the objective's motion cost from the parent, the stored cost of the
+    #      report is not better than the cost of the reported path, optimized flag = threshold test; path length and mechanical work
+    import rrtstar_scripts as rss
+    try:
+        rdrv4 = c.build_driver("rrt_driver", link_ompl=True)
+        sl4, _ = rss.gen(rng, 150 if quick else 3000)
+        rc8, o8, e8, s8 = vf.sh([rdrv4], input="\n".join(sl4) + "\n", timeout=900); c.step("impl:rrtstar-cost-bookkeeping", rdrv4 + " RRTS ... (%d scripted runs)" % len(sl4), s8, rc8 == 0)
+        il4 = [l for l in o8.split("\n") if l.startswith("rrts")]; nrew = 0
+        for k4, sl in enumerate(sl4):
+            try:
+                jd = rss.judge(sl, il4[k4].strip() if k4 < len(il4) else "<no output>"); nrew += sum(1 for j_, t in enumerate(jd["nodes"]) if int(t[2]) > j_)
+                if jd["cost_bad"]:
+                    npred += 1; pfail["RRTstar(scripted): " + jd["cost_bad"][:50]] += 1
+                    if first_pred is None: first_pred = ("PLANNER", sl + " :: geometric::RRTstar (scripted run): " + jd["cost_bad"])
+            except Exception as ex:
+                npred += 1
+                if first_pred is None: first_pred = ("PLANNER", sl + " :: geometric::RRTstar (scripted run): no observation (%s)" % ex)
+        pstats["rrtstar_scripted_runs"] = len(sl4); pstats["rrtstar_rewired_motions"] = nrew
+    except vf.BuildError as ex:
+        c.broken.append("correspondence C04: rrt_driver does not build: " + str(ex)[-300:])
     c.step("correspond:model-path-costs", "coqc cases_cost_*.v (CostModel on binary64: %d distinct reported paths)" % ncost, tcost, ncost_bad == 0)
     c.cov.update({"path_costs_recomputed_by_model": ncost, "path_cost_disagreements": ncost_bad})
     c.cov.update({"planner_runs": len(pjobs), "planner_histogram": dict(pstats), "planner_failures_by_kind": dict(pfail)})
     c.cov["evaluations"] += len(pjobs) * 3
     c.assumptions[:] = [a for a in c.assumptions if "planner-level clauses" not in a] + ["planner-level clauses are checked per run on 20 optimizing planners x {path length, state-cost integral, mechanical work over a sloped potential (the direction-dependent one), the weighted multi-objective 1 x length + 0.05 x integral, max-min clearance} x 3 consecutive solves, not proved"]
     if first_pred and first_pred[0] == "PLANNER":
-        c.violation("implementation violates C04: " + first_pred[1], "# C04 replay: build/harness/cost_driver <the line>\n" + first_pred[1].split(" :: ")[0] + "\n"); c.finish()
+        c.violation("implementation violates C04: " + first_pred[1], "# C04 replay: build/harness/cost_driver <the line>  (RRTS lines: feed to build/harness/rrt_driver)\n" + first_pred[1].split(" :: ")[0] + "\n"); c.finish()
     if first_pred:
         st, bad = first_pred
         c.violation("implementation violates C04: " + bad, "# C04 replay: bin/check C04 --replay <this file>\nN\n" + "\n".join("ADD %d %d %d %d %d %d" % s for s in st) + "\n")
